@@ -412,8 +412,10 @@ class AssociationSocket:
             # Try and connect to remote at (address, port)
             #   raises OSError if connection refused
             self.socket.connect(primitive.address_info.as_tuple)
-            # Clear ae connection timeout
-            self.socket.settimeout(None)
+            # Clear ae connection timeout: from now on a recv() or send() that
+            #   makes no progress is bounded by the network timeout, as it
+            #   was before connecting (see _create_socket())
+            self.socket.settimeout(self.assoc.network_timeout)
 
             # Update the Association.requestor's host and port with the actual values
             conn_info = self.socket.getsockname()
@@ -747,6 +749,11 @@ class RequestHandler(BaseRequestHandler):
         # Set the thread name
         timestamp = datetime.strftime(datetime.now(), "%Y%m%d%H%M%S")
         assoc.name = f"AcceptorThread@{timestamp}"
+
+        # If no timeout is set then recv() will block forever if
+        #   the connection is kept alive with no data sent
+        if assoc.network_timeout is not None:
+            self.request.settimeout(assoc.network_timeout)
 
         sock = AssociationSocket(assoc, client_socket=self.request)
         assoc.set_socket(sock)
